@@ -276,6 +276,7 @@ def run(model: RepoModel, rep, tier: str):
                       f"in the first round and entry edges forever")
 
     _r5_change_propagation(model, rep, p2)
+    _r6_worklist_protocol(model, rep, p2)
 
 
 def _r5_change_propagation(model: RepoModel, rep, p2):
@@ -372,6 +373,105 @@ def _r5_change_propagation(model: RepoModel, rep, p2):
                           f"update_symbols_if_changed receives (`{norm(a_in) if a_in is not None else '?'}`, `{norm(a_out) if a_out is not None else '?'}`) "
                           f"as the old in/out sets; they are not the in-set captured before the merge and the out-set captured before the "
                           f"transfer, so a change is compared against the wrong set")
+
+
+def _r6_worklist_protocol(model: RepoModel, rep, p2):
+    """C06.R6: the statement work-list is a priority queue (reverse post-order of the CFG); what is taken off it must be what was visited,
+    and an edge's kind must be readable from the graph class the CFG is loaded into."""
+    rep.rule("C06.R6", "work-list and edge protocol: a heap is only shrunk with heappop; the entry removed at the end of a visit is the "
+                       "statement that was visited (no insertion between peek and the argument-less pop of a priority queue); the edge "
+                       "kind lookup used for the back-edge test understands the graph class control-flow graphs are loaded into", 3)
+    CS = "common_structs.py"
+    wl = model.cls(CS, "SimpleWorkList")
+    heap_attrs: Set[str] = set()
+    for f in wl.methods.values():
+        for c in walk_no_nested(f.node):
+            if isinstance(c, ast.Call) and call_name(c) == "heapq.heappush" and c.args and is_self_attr(c.args[0]):
+                heap_attrs.add(c.args[0].attr)
+    key = f"{CS}::SimpleWorkList::a list filled with heappush is only shrunk with heappop"
+    if not heap_attrs:
+        rep.holds("C06.R6", key, CS, wl.node.lineno, "the work-list is not heap ordered")
+    else:
+        bad = []
+        for f in wl.methods.values():
+            for c in walk_no_nested(f.node):
+                if isinstance(c, ast.Call) and isinstance(c.func, ast.Attribute) and c.func.attr in ("pop", "remove") \
+                        and is_self_attr(c.func.value) and c.func.value.attr in heap_attrs:
+                    bad.append((f, c))
+                if isinstance(c, ast.Delete) and any(isinstance(t, ast.Subscript) and is_self_attr(t.value) and t.value.attr in heap_attrs for t in c.targets):
+                    bad.append((f, c))
+        if bad:
+            f, c = bad[0]
+            rep.violation("C06.R6", key, CS, c.lineno,
+                          f"SimpleWorkList.{f.name} removes with `{norm(c)}` from a list that is kept with heapq.heappush: what remains is no "
+                          f"longer a heap, so later peeks/pops do not return the statement that comes first in reverse post-order -- "
+                          f"statements are visited before their predecessors' facts are final and use up their visit budget")
+        else:
+            rep.holds("C06.R6", key, CS, wl.node.lineno, "heappush / heappop only")
+    # peek ... add ... pop
+    an = p2.methods.get("analyze_stmts")
+    if an is None:
+        raise AnalysisError("analyze_stmts vanished")
+    cfg = cfg_of(an.node)
+    peeks = [n for n in cfg.g.nodes if any((call_name(c) or "").endswith("stmt_worklist.peek") for c in cfg.calls_at(n))]
+    pops = [n for n in cfg.g.nodes if any((call_name(c) or "").endswith("stmt_worklist.pop") and not c.args for c in cfg.calls_at(n))]
+    adds = {n for n in cfg.g.nodes if any((call_name(c) or "").endswith("stmt_worklist.add") for c in cfg.calls_at(n))}
+    key = f"{PS}::analyze_stmts::the entry popped at the end of a visit is the visited statement"
+    prio = any(isinstance(c, ast.Call) and call_name(c) == "SimpleWorkList" and any(k.arg == "graph" for k in c.keywords)
+               for f in p2.methods.values() for c in walk_no_nested(f.node))
+    if not peeks or not pops:
+        rep.unknown("C06.R6", key, PS, an.node.lineno, "peek/pop protocol not recognised")
+    elif not prio or not heap_attrs:
+        rep.holds("C06.R6", key, PS, an.node.lineno, "FIFO work-list: insertions go behind the visited statement")
+    else:
+        witness = None
+        for pk in peeks:
+            for pp in pops:
+                for ad in adds:
+                    p1 = cfg.path_avoiding(pk, ad, set(pops))
+                    p2_ = cfg.path_avoiding(ad, pp, set(peeks) | (set(pops) - {pp}))
+                    if p1 is not None and p2_ is not None:
+                        witness = (pk, ad, pp)
+                        break
+                if witness:
+                    break
+            if witness:
+                break
+        if witness:
+            pk, ad, pp = witness
+            rep.violation("C06.R6", key, PS, cfg.stmt[pp].lineno,
+                          f"analyze_stmts peeks the first statement (line {cfg.stmt[pk].lineno}), inserts its successors into the priority "
+                          f"queue (line {cfg.stmt[ad].lineno}) and then removes `the first entry` with pop() (line {cfg.stmt[pp].lineno}): when a "
+                          f"successor sorts before the visited statement -- the loop header seen from the last statement of the body -- the "
+                          f"header is thrown away unvisited and the visited statement stays queued; loop headers are never re-visited, so a "
+                          f"definition made in a loop body does not reach the code after the loop")
+        else:
+            rep.holds("C06.R6", key, PS, an.node.lineno, "no insertion between peek and pop")
+    # edge kind lookup vs graph class
+    um = model.module("util/util.py")
+    gw = um.functions.get("get_graph_edge_weight")
+    key = "util/util.py::get_graph_edge_weight::understands the graph class of loaded control-flow graphs"
+    bg = model.cls(CS, "BasicGraph")
+    multi = any(isinstance(n, ast.Assign) and is_self_attr(n.targets[0], "graph") and isinstance(n.value, ast.Call)
+                and (call_name(n.value) or "").endswith("MultiDiGraph") for f in bg.methods.values() for n in walk_no_nested(f.node))
+    cfg_is_basic = any(b.name == "BasicGraph" for b in model.mro(model.cls(CS, "ControlFlowGraph")))
+    if gw is None:
+        raise AnalysisError("util.get_graph_edge_weight vanished")
+    direct = [n for n in walk_no_nested(gw.node) if isinstance(n, ast.Call) and isinstance(n.func, ast.Attribute) and n.func.attr == "get"
+              and n.args and const_str(n.args[0]) == "weight" and isinstance(n.func.value, ast.Name)]
+    handles_multi = any(isinstance(n, ast.Call) and isinstance(n.func, ast.Attribute) and n.func.attr in ("is_multigraph", "values", "items")
+                        for n in walk_no_nested(gw.node)) or any(isinstance(n, ast.Subscript) and isinstance(n.slice, ast.Constant) and n.slice.value == 0
+                                                                 for n in walk_no_nested(gw.node))
+    if multi and cfg_is_basic and direct and not handles_multi:
+        rep.violation("C06.R6", key, "util/util.py", direct[0].lineno,
+                      "control-flow graphs are loaded into BasicGraph.graph, an nx.MultiDiGraph, whose get_edge_data(u, v) returns "
+                      "{edge key: attributes}; get_graph_edge_weight reads `.get('weight')` from that outer dict and therefore always "
+                      "returns None: the LOOP_BACK tests in analyze_reachable_symbols / collect_in_state_bits never see a back edge, so a "
+                      "re-visited loop header gets an empty in-set")
+    elif direct or handles_multi:
+        rep.holds("C06.R6", key, "util/util.py", gw.node.lineno, "edge attributes are read in the shape the graph class returns")
+    else:
+        rep.unknown("C06.R6", key, "util/util.py", gw.node.lineno, "weight lookup not recognised")
 
 
 def _cfg_handlers(model: RepoModel) -> Dict[str, str]:
